@@ -87,6 +87,7 @@ func c03Window(c *Ctx, m *searchModel, rule string) {
 		return seed{name, func() (*absint.State, absint.Value) {
 			st := absint.NewState()
 			v := e.mk(skMatePos, 1)
+			e.mateRange(st, v.(*absint.Struct).F[1])
 			assume(st, v.(*absint.Struct).F[1])
 			return st, v
 		}}
